@@ -36,6 +36,9 @@ FILES = [
     # same stem up to the first dot, same directory
     "deep/set.v1.json",
     "deep/set.v2.json",
+    # names that do not end in ".json" are not generated: aoef.load refuses
+    # them by design ("Invalid file type"), so they are not AOEF files in the
+    # statement's sense
 ]
 
 WRITE_FAULTS = [
@@ -1109,9 +1112,20 @@ class _Gen:
     def cfg_root(self, k):
         small = self.worlds[k][2]
         spec_cfg = self.cfg["small_spec"] if small else self.cfg["spec"]
-        root = spec_cfg["audio_root"]
-        if self.rng.random() < 0.1:
-            root = root + "/"  # trailing slash is the same directory
+        return self.spell_dir(spec_cfg["audio_root"])
+
+    def spell_dir(self, root):
+        """Another spelling of the same directory, now and then: a trailing
+        separator, a doubled inner separator, a "." segment."""
+        r = self.rng.random()
+        if r < 0.1:
+            return root + "/"
+        if r < 0.2 and "/" in root[1:]:
+            cut = self.rng.choice(
+                [i for i, c in enumerate(root) if c == "/" and i > 0]
+            )
+            mid = self.rng.choice(["//", "/./"])
+            return root[:cut] + mid + root[cut + 1:]
         return root
 
     def save(self, k, p=None, n=None, root=None, audio="auto", fault="auto"):
@@ -1143,10 +1157,11 @@ class _Gen:
             focus = self.cfg["focus"]
             r = self.rng.random()
             if saved_with is None:
-                audio = None if r < 0.8 else self.rng.choice(specs.AUDIO_ROOTS)
+                audio = None if r < 0.8 else self.spell_dir(
+                    self.rng.choice(specs.AUDIO_ROOTS))
             elif focus == "C18":
                 audio = (
-                    self.rng.choice(specs.AUDIO_ROOTS)
+                    self.spell_dir(self.rng.choice(specs.AUDIO_ROOTS))
                     if r < 0.6
                     else (saved_with if r < 0.85 else None)
                 )
@@ -1397,7 +1412,7 @@ class _Gen:
         a = self.cfg_root(k)
         n1 = self.node()
         s = self.save(k, n=n1, audio=a, fault=None)
-        b = self.rng.choice([r for r in specs.AUDIO_ROOTS if r != a.rstrip("/")])
+        b = self.rng.choice([r for r in specs.AUDIO_ROOTS if norm_dir(r) != norm_dir(a)])
         n2 = self.other_node(n1)
         ld = self.load(s["path"], n=n2, audio=b, fault=None)
         if self.rng.random() < 0.6:
